@@ -894,6 +894,10 @@ fn extract<'tcx>(tcx: TyCtxt<'tcx>) -> J {
         o.push(("path", J::s(path_of(tcx, did))));
         o.push(("dk", J::s(format!("{:?}", dk))));
         o.push(("name", J::s(tcx.item_name(did).to_string())));
+        o.push((
+            "module",
+            J::s(path_of(tcx, tcx.parent_module_from_def_id(owner).to_def_id())),
+        ));
         let sp = tcx.def_span(did);
         o.push(("sp", J::s(loc(tcx, sp))));
         if let Some(m) = macro_chain(sp) {
@@ -1015,6 +1019,48 @@ fn extract<'tcx>(tcx: TyCtxt<'tcx>) -> J {
             }
         }
     }
+    // ---- imports: `use` items (private ones too) make `module::name` another spelling of the target ----
+    let mut uses = Vec::new();
+    for id in tcx.hir_free_items() {
+        let item = tcx.hir_item(id);
+        if let hir::ItemKind::Use(path, kind) = item.kind {
+            let module = path_of(
+                tcx,
+                tcx.parent_module_from_def_id(item.owner_id.def_id).to_def_id(),
+            );
+            let mut targets: Vec<(String, String)> = Vec::new();
+            for r in [path.res.type_ns, path.res.value_ns, path.res.macro_ns] {
+                if let Some(Res::Def(dk, did)) = r {
+                    targets.push((format!("{:?}", dk), path_of(tcx, did)));
+                }
+            }
+            match kind {
+                hir::UseKind::Single(ident) => {
+                    for (dk, t) in targets {
+                        let mut o = J::obj();
+                        o.push(("module", J::s(module.clone())));
+                        o.push(("name", J::s(ident.name.to_string())));
+                        o.push(("target", J::s(t)));
+                        o.push(("dk", J::s(dk)));
+                        o.push(("vis", J::s(format!("{:?}", tcx.visibility(item.owner_id.to_def_id())))));
+                        uses.push(J::Obj(o));
+                    }
+                }
+                hir::UseKind::Glob => {
+                    for (dk, t) in targets {
+                        let mut o = J::obj();
+                        o.push(("module", J::s(module.clone())));
+                        o.push(("glob", J::Bool(true)));
+                        o.push(("target", J::s(t)));
+                        o.push(("dk", J::s(dk)));
+                        uses.push(J::Obj(o));
+                    }
+                }
+                _ => {}
+            }
+        }
+    }
+    top.push(("uses", J::Arr(uses)));
     top.push(("adts", J::Arr(adts)));
     top.push(("impls", J::Arr(impls)));
     top.push(("consts", J::Arr(consts)));
